@@ -157,6 +157,20 @@ def drawdown(F, R):
     mdd = [c for c in cells if init.get(c) == lit(0.0)]
     if m.last_ret[0] == 'some' and m.last_ret[1][0] == 'in' and m.last_ret[1][1] in cells:
         mdd = [m.last_ret[1][1]]
+    # roles by structure (independent of how the registers are initialised): the peak is the running maximum of the inner
+    # output, the maximum drawdown is what last() returns, the trough is the remaining float register
+    if V is not None and len(mdd) == 1:
+        pk = []
+        for c in cells:
+            dv = delivering_value(m, c)
+            if dv[0] == 'phi' and {dv[2], dv[3]} == {V, ('in', c)}:
+                r = relation(dv[1], V, ('in', c))
+                if r is not None and ((dv[2] == V and r <= {'>', '='} and '>' in r) or (dv[3] == V and ({'<', '=', '>'} - r) <= {'>', '='})):
+                    pk.append(c)
+        if len(pk) == 1:
+            rest = [c for c in cells if c not in pk and c not in mdd]
+            if len(rest) == 1:
+                peak, trough = pk, rest
     if len(peak) != 1 or len(trough) != 1 or len(mdd) != 1 or V is None:
         R.violation('DD', 'Drawdown:roles', 'cannot identify peak / trough / max-drawdown cells from their initial values (min_value, max_value, 0): %s' % {c: tstr(init.get(c, ('?',))) for c in cells}, v.file)
         return
